@@ -59,7 +59,7 @@ func Spec(prop, tier string) *core.CheckSpec {
 			},
 			Real:   realAll,
 			Stub:   []string{"goroutine scheduling decisions (controlled scheduler)", "host callbacks emit/probe"},
-			Assume: []string{"heap bound M3 uses runtime.MemStats.TotalAlloc of the worker process: 16*M + 96 MiB per run (the unchanged tree stays under 45 MiB on every template)"},
+			Assume: []string{"heap bound M3 uses runtime.MemStats.TotalAlloc of the worker process: cumulative allocation <= 16*M + 96 MiB + 600 bytes per CPU tick allowed, and growth of the process heap <= 16*M + 128 MiB per run"},
 		}
 	case "C10":
 		return &core.CheckSpec{
